@@ -1625,6 +1625,9 @@ def _handle_facet_stage(in_collection, database, options):
 
 def _handle_match_stage(in_collection, database, options):
     spec = helpers.patch_datetime_awareness_in_document(options)
+    if not in_collection:
+        # Validate the filter even if no documents can be returned (as find does).
+        filtering.filter_applies(spec, {})
     return [
         doc for doc in in_collection
         if filtering.filter_applies(spec, helpers.patch_datetime_awareness_in_document(doc))
